@@ -13,6 +13,7 @@ Two layers:
 -/
 import Pithos.Lemmas.TxFs
 import Pithos.Model.S3
+import Pithos.Gen.TxFsHooks
 
 namespace Pithos.C03
 open Pithos.TxFs
@@ -75,5 +76,107 @@ example : (commitOk [.put 7 [9], .del 3] (emptyFiles.set (.part 3) (some [4]))).
     ∧ (commitOk [.put 7 [9], .del 3] (emptyFiles.set (.part 3) (some [4]))).files (.part 3) = none
     ∧ (commitOk [.put 7 [9], .del 3] (emptyFiles.set (.part 3) (some [4]))).files (.backup 3 1) = none := by
   decide
+
+-- ---------------------------------------------------------------- storage API level (model Pithos.S3)
+
+open Pithos.S3 in
+/-- Case analysis used below: follow every branch of `S3.step` for one operation; a branch either
+does not answer an error or returns the incoming state (with the logical clock ticked). -/
+syntax "err_leaves" : tactic
+macro_rules
+  | `(tactic| err_leaves) => `(tactic|
+      (intro st out hstep hout
+       simp only [Pithos.S3.step, Pithos.S3.deleteOp] at hstep
+       repeat' (split at hstep)
+       all_goals (first
+         | (obtain ⟨rfl, rfl⟩ := Prod.mk.inj hstep; first | rfl | (exfalso; simp at hout; done) | (simp_all; done))
+         | skip)))
+
+open Pithos.S3 in
+/-- **step_error_state_eq.** In the storage model, for *every* operation (bucket, object,
+versioning, copy, append, multipart, tagging, transition, listings), every quirk setting and
+every state: an operation that answers an error — NoSuchBucket, NoSuchKey, PreconditionFailed,
+InvalidPart, InvalidPartOrder, InvalidWriteOffset, BucketNotEmpty, … — returns the state it was
+given; only the logical clock (one tick per request, never observable by itself) advances. -/
+theorem step_error_state_eq (q : Quirks) (s : State) (op : Op) (e : Err)
+    (h : (step q s op).2 = .err e) : (step q s op).1 = { s with clock := s.clock + 1 } := by
+  have key : ∀ st out, step q s op = (st, out) → out = .err e → st = { s with clock := s.clock + 1 } := by
+    cases op <;> err_leaves
+  exact key _ _ rfl h
+
+open Pithos.S3 in
+/-- Corollary in the property's words: after a failing operation every bucket — its versioning
+state, every object row (content, metadata, tags, class, version id, latest flag, delete
+markers, timestamps), every pending upload and its parts — and every id counter is unchanged, so
+every later listing and read answers as if the call had not been made. -/
+theorem step_error_leaves_no_trace (q : Quirks) (s : State) (op : Op) (e : Err)
+    (h : (step q s op).2 = .err e) :
+    (step q s op).1.buckets = s.buckets ∧ (step q s op).1.nextVid = s.nextVid ∧
+    (step q s op).1.nextUid = s.nextUid ∧ (step q s op).1.nextRow = s.nextRow := by
+  rw [step_error_state_eq q s op e h]
+  exact ⟨rfl, rfl, rfl, rfl⟩
+
+open Pithos.S3 in
+/-- Non-vacuity: a failing conditional write (If-None-Match: * on an existing key) on a
+non-empty state answers an error. -/
+example :
+    (match (step Quirks.code (run Quirks.code {} [.mkb "b", .put "b" "k" [1] {} false .none]).1
+        (.put "b" "k" [2] {} true .none)).2 with
+     | .err e => e == .preconditionFailed
+     | _ => false) = true
+    ∧ ((run Quirks.code {} [.mkb "b", .put "b" "k" [1] {} false .none]).1.buckets.isEmpty = false) := by
+  decide
+
+-- ---------------------------------------------------------------- T1: the code the model was written against
+-- (`Pithos.Gen.TxFsHooks` is regenerated from /repo on every run; these equalities tie the
+-- rollback side of the model to the current source text: a changed closure, a changed failure
+-- path of Commit/WithTx or an unknown loop shape breaks an obligation.)
+
+open Pithos.Gen in
+/-- `TxController.Rollback`: finalise the SQL transaction, then run every rollback closure — in
+registration order (`rollbackReverse = false`, model `rev = false`) or last-registered-first
+(`rollbackReverse = true`, model `rev = true`); no other shape is modelled. -/
+theorem code_rollback_is_modelled :
+    TxFsHooks.rollbackSkeleton =
+      ["[!t.ownsFinalization] return nil", "sql.Rollback", "[t.finalized] return err", "finalized=true",
+       (match TxFsHooks.rollbackReverse with
+        | false => "loop-forward onRollback"
+        | true => "loop-reverse onRollback"),
+       "[in-loop] Point tx.rollback", "[in-loop] call fn(ctx)", "end-loop", "return err"] := rfl
+
+open Pithos.Gen in
+/-- `TxController.Commit`: every failure before `tx.Commit()` returns through `Rollback`
+(model: `commitFault`), pre-commit closures run in registration order, nothing after a
+successful `tx.Commit()` can fail the transaction. -/
+theorem code_commit_is_modelled :
+    TxFsHooks.commitSkeleton =
+      ["[!t.ownsFinalization] return nil", "[t.finalized] return nil", "loop-forward onPreCommit",
+       "[in-loop] Point tx.precommit", "[in-loop][pointErr!=nil] Rollback", "[in-loop][pointErr!=nil] return pointErr",
+       "[in-loop] call fn(ctx)", "[in-loop][hookErr!=nil] Rollback", "[in-loop][hookErr!=nil] return hookErr", "end-loop",
+       "Point tx.commit", "[pointErr!=nil] Rollback", "[pointErr!=nil] return pointErr", "sql.Commit",
+       "[err!=nil] Rollback", "[err!=nil] return err", "finalized=true", "Point tx.committed",
+       "loop-forward onAfterCommit", "[in-loop] Point tx.aftercommit", "[in-loop] call fn(ctx)",
+       "[in-loop][hookErr!=nil] return hookErr", "end-loop", "Point tx.done", "return nil"] := rfl
+
+open Pithos.Gen in
+/-- `WithTx`: a failing body is rolled back (model: `commitFault … 0`), a succeeding one committed. -/
+theorem code_withtx_is_modelled :
+    TxFsHooks.withTxSkeleton =
+      ["BeginTx", "[err!=nil] return err", "call fn(ctx,tx)", "[err!=nil] Rollback",
+       "[err!=nil][rollbackErr!=nil] return rollbackErr", "[err!=nil] return err", "Commit", "return tx.Commit(ctx)"] := rfl
+
+open Pithos.Gen in
+/-- The rollback closures of the filesystem part store (model: `rollbackHook`), and what PutPart
+does when its own call fails (temp file removed, nothing registered). -/
+theorem code_rollback_closures_are_modelled :
+    TxFsHooks.putPartOnRollback =
+      ["[published] Remove filename", "[published][backupCreated] Rename backupName filename",
+       "[!published] Remove tempName", "Return nil"]
+    ∧ TxFsHooks.deletePartOnRollback = ["[backupCreated] Rename backupName filename", "Return nil"]
+    ∧ TxFsHooks.putPartCallTime =
+      ["CreateTemp", "[err!=nil] Return err", "Copy tempFile reader", "[err!=nil] Close tempFile",
+       "[err!=nil] Remove tempName", "[err!=nil] Return err", "Close tempFile", "[err!=nil] Remove tempName",
+       "[err!=nil] Return err", "Return nil"]
+    ∧ TxFsHooks.deletePartCallTime = ["Return nil"] := ⟨rfl, rfl, rfl, rfl⟩
 
 end Pithos.C03
